@@ -108,22 +108,23 @@ NA = {
 ADD = {
     "C01": "Also: streams with three or four pools of their own; units of cooperative stacked schedulers that create ULTs in the runtime's pools and join them; the dispatch and pool-reuse scenarios shared with C14 / C06.",
     "C02": "Also: switches performed on the caller's behalf by short-lived unnamed ULTs on malloc'ed stacks (exit_to / resume_exit_to by a unit that is freed during the switch); the yield_to-race scenario.",
-    "C03": "Also: the joiner revives the joined unit once and joins its second life (whatever ended the first one, including a cancellation before it ever ran).",
+    "C03": "Also: the joiner revives the joined unit once and joins its second life (whatever ended the first one, including a cancellation before it ever ran). A joiner of the ULT that ends its stream with ABT_xstream_exit (scenario exit-of-a-stream).",
     "C04": "Also: the condition-variable scenario on a recursive mutex (ownership given up and regained inside the wait); the wait-list monitor M-waitlist (well-formed list over exactly the waiting callers after every enqueue / wake-up pass).",
-    "C05": "Also: a white-box layer over the wait-list events: release-and-wait atomicity checked at every signal / broadcast issued under the mutex, ABT_SUCCESS exactly for callers a signal dequeued, TIMEDOUT exactly for callers that unlinked themselves at or after the deadline; tasklet callers (refused for ABT_cond_wait, served for ABT_cond_timedwait); M-waitlist.",
-    "C06": "Also: a private pool listed by a second scheduler object (spare, or replaced and not yet freed); pool re-use by successive streams; units that replace their stream's main scheduler during the join.",
-    "C07": "Also: one ABT_pool_push_threads call of 60..100 units racing with a single push and an unbounded pop_many must stay one queue operation; blocking pops that come back empty-handed must not have missed a push (FIFO_WAIT, single consumer, fault-free batches); deadlines in the past.",
+    "C05": "Also: a white-box layer over the wait-list events: release-and-wait atomicity checked at every signal / broadcast issued under the mutex, ABT_SUCCESS exactly for callers a signal dequeued, TIMEDOUT exactly for callers that unlinked themselves at or after the deadline; tasklet callers (refused for ABT_cond_wait, served for ABT_cond_timedwait); M-waitlist. Scenario rejected-free: ABT_cond_free with waiters is refused, leaves the object usable, and a broadcast then releases every waiter.",
+    "C06": "Also: a private pool listed by a second scheduler object (spare, or replaced and not yet freed); pool re-use by successive streams; units that replace their stream's main scheduler during the join. Scenario revive-lifecycle: a revived stream left idle before new work arrives must keep running until it is joined again, and that join waits for the new work.",
+    "C07": "Also: one ABT_pool_push_threads call of 60..100 units racing with a single push and an unbounded pop_many must stay one queue operation; blocking pops that come back empty-handed must not have missed a push (FIFO_WAIT, single consumer, fault-free batches); deadlines in the past. A read-only ABT_pool_print_all_threads walk as a pool operation (only pushed units, each once; exactly the pool's content for a single client).",
     "C08": "Also: the execution-stream barrier with external threads, tasklets and a single stream; a waiter that receives a cancellation request while blocked in the last round; the barrier freed by the first released waiter; M-waitlist.",
     "C09": "Also: re-arm (set immediately followed by reset while released waiters are still on their way out); the waiter creates the eventual / future and frees it as soon as its wait returned (free quarantine shows late writes of the setter); tasklet waits are refused and leave the object intact; M-waitlist.",
     "C10": "Also: tasklet callers, which are refused and must leave the lock usable.",
-    "C11": "Also: the proxy switches described for C02; migration and cancellation requests pending at directed switches.",
-    "C13": "Also: a running stream whose scheduler has no pool (never a target); joined-but-not-freed streams; requests through streams and schedulers; the sequence scenario.",
+    "C11": "Also: the proxy switches described for C02; migration and cancellation requests pending at directed switches. ABT_thread_revive_to of a unit that has not terminated must be refused.",
+    "C12": "Also: a cancellation that certainly precedes the unit's first pop (canceller on the only stream serving the pool, no yield in between): the function must not run, tasklets included; scenario failed-revives (fault injection).",
+    "C13": "Also: a running stream whose scheduler has no pool (never a target); joined-but-not-freed streams; requests through streams and schedulers; the sequence scenario. A request accepted but not served before the unit terminates must not survive ABT_thread_revive.",
     "C14": "Also: scenario failed-associations (fault injection: the k-th allocation of an associating call fails, or create_unit declines, over two user-defined pools with separate unit accounting); legacy pools with p_pop_timedwait under BASIC_WAIT schedulers; dispatch by unit handle; bulk moves.",
     "C15": "Also: one attribute object per creator re-used across creations (user stack, then library-allocated stack) with a read-back check; churn; cancel-at-pop; monitor M-local-pool (stream-local memory pools are used by one OS thread at a time).",
     "C16": "Also: runs that start after hundreds or tens of thousands of keys were created and deleted (high key ids); keys deleted and replaced while units hold values for them; concurrently created keys.",
-    "C17": "Also: streams ended by ABT_xstream_cancel / ABT_xstream_exit / ABT_sched_exit with work queued, then revived.",
-    "C18": "Now 48 table entries (incl. ABT_thread_migrate, moves between two user-defined pools, ABT_pool_push_threads of 70 units, printing routines), create_unit declining as a second fault kind, scenario migration-handler (the failure happens while a migration request is being served) and scenario keytable-race (two first setters of one unit, one failing).",
-    "C19": "Also: 'never' deadlines (LONG_MAX and other huge tv_sec values), tasklet timed waiters, the white-box layer described for C05, far-deadline blocking pops and the missed-push oracle described for C07; M-waitlist.",
+    "C17": "Also: streams ended by ABT_xstream_cancel / ABT_xstream_exit / ABT_sched_exit with work queued, then revived. Scenario failed-sched-replacements (fault injection into ABT_xstream_set_main_sched[_basic]: the stream keeps its old scheduler, can be revived, run a unit and be joined again); revived streams left idle.",
+    "C18": "Now 48 table entries (incl. ABT_thread_migrate, moves between two user-defined pools, ABT_pool_push_threads of 70 units, printing routines), create_unit declining as a second fault kind, scenario migration-handler (the failure happens while a migration request is being served) and scenario keytable-race (two first setters of one unit, one failing). ULT / tasklet creation on built-in and user-defined pools enumerated from an external thread; after attempts on a joined stream the stream is revived, runs a unit and is joined again.",
+    "C19": "Also: 'never' deadlines (LONG_MAX and other huge tv_sec values), tasklet timed waiters, the white-box layer described for C05, far-deadline blocking pops and the missed-push oracle described for C07; M-waitlist. Pool print walks between blocking pops on private pools.",
 }
 for _k, _v in ADD.items():
     TEXT[_k]["level_text"] += " " + _v
